@@ -235,6 +235,58 @@ fn c06_recurse_multi_chance_and_cached_root() {
     core::mem::forget(node);
 }
 
+/// `recurse_single` on a chance node over two terminals (no decision node anywhere): value is the
+/// probability-weighted sum over every outcome.
+#[kani::proof]
+#[kani::unwind(3)]
+fn c08_recurse_single_chance_over_terminals() {
+    let u = [pay(), pay()];
+    let node = Node::Chance(Chance { outcomes: Box::new([Node::Terminal(u[0]), Node::Terminal(u[1])]) as Box<[Node]>, infoset: 0 });
+    let probs = [0.25, 0.75];
+    let chance = [FullChance(&probs)];
+    let none: [RefCell<RegretInfoset>; 0] = [];
+    let v = recurse_single(&node, &chance[..], [&none[..], &none[..]], q3(), [q3(), q3()]);
+    kani::cover!(u[0] != u[1], "outcome values differ");
+    assert!(near(v, 0.25 * u[0] + 0.75 * u[1]), "C08 step: chance node value is not the probability-weighted sum over every outcome (single-thread traversal)");
+    core::mem::forget(node);
+}
+
+/// The decision-node glue of `recurse_single` on the smallest possible node (one action over a
+/// terminal; keeps the real recursion at depth 2): the average strategy receives the ACTING player's
+/// own reach times the strategy, the value is the child's, regrets net out to no change.
+#[kani::proof]
+#[kani::unwind(2)]
+fn c08_recurse_single_one_action_node() {
+    let who = any_player();
+    let u = pay();
+    let (pc, pp) = (q3(), [q3(), q3()]);
+    let node = Node::Player(Player { num: who, infoset: 0, actions: Box::new([Node::Terminal(u)]) as Box<[Node]> });
+    let mine = [RefCell::new(RegretInfoset {
+        cum_regret: Box::new([1.5]) as Box<[f64]>,
+        cum_strat: Box::new([0.5]) as Box<[f64]>,
+        strat: Box::new([1.0]) as Box<[f64]>,
+    })];
+    let other: [RefCell<RegretInfoset>; 0] = [];
+    let chance: [FullChance<'static>; 0] = [];
+    let infos: [&[RefCell<RegretInfoset>]; 2] = match who {
+        PlayerNum::One => [&mine[..], &other[..]],
+        PlayerNum::Two => [&other[..], &mine[..]],
+    };
+    let v = recurse_single(&node, &chance[..], infos, pc, pp);
+    let own = match who {
+        PlayerNum::One => pp[0],
+        PlayerNum::Two => pp[1],
+    };
+    kani::cover!(pp[0] != pp[1], "the two players' reach differ");
+    assert!(v == u, "C08 step: value of a one-action node is its child's value");
+    let m = mine[0].borrow();
+    assert!(m.cum_strat[0] == 0.5 + own, "C08 step: average strategy must be updated with the acting player's own reach (single-thread traversal)");
+    assert!(m.cum_regret[0] == 1.5, "C08 step: regret of the only action must not change");
+    drop(m);
+    core::mem::forget(node);
+    core::mem::forget(mine);
+}
+
 /// C12 — player mirror: the step at a player-two node with payoffs -u and the two reach
 /// components exchanged accumulates exactly the regrets of the player-one step with payoffs u, and
 /// returns the negated value. Payoff scaling by 2 scales value and regret increments by 2.
